@@ -26,3 +26,61 @@ fn h_w_duplicates() {
     w_duplicates::duplicate_of_highest_byte_aligned_fragment();
     w_duplicates::duplicate_of_unaligned_fragment();
 }
+
+// ---------------------------------------------------------------------------
+// BOUNDED stand-in for the reassembler (kind=witness: never run by Kani, never counted as proved).  Run on the real code only
+// when a Verus unit of C11 (reasm / reasmmap) cannot ingest a changed function: 1500 pseudo-random histories in which two
+// or three datagrams that differ in identification (payload 1..=3000 octets) are fragmented by the real fragmenter for a
+// random MTU (68..=700), their fragments interleaved, permuted and repeated at random and fed to one Reassembly: a
+// datagram is returned exactly by the arrival that completes the set of its distinct fragments, with the original header
+// and payload; repetitions after completion start a new round and return nothing by themselves.
+// ---------------------------------------------------------------------------
+//# id=witness.reassembler_matches_the_coverage_model props=C11 kind=witness pair=reasm.Segment.receive_packet.returns_iff_complete,reasm.Segment.receive_packet.returns_the_original_payload,reasm.Segment.receive_packet.marks_exactly_the_fragments_blocks,reasm.Segment.receive_packet.safety,reasm.BitVec.set_range.safety,reasm.BitVec.range_complete.all_bits_of_the_range_set,reasm.BitVec.complete.all_low_bits_set,reasmmap.Reassembly.receive_packet.safety
+#[cfg(vx_replay)]
+#[test]
+fn h_w_reasm_model() {
+    use crate::protocols::ipv4::{fragmentation::{fragment, Fragments}, test_header_builder::TestHeaderBuilder};
+    let mut s: u64 = 0x0fed_cba9_8765_4321;
+    let mut next = |n: usize| { s = s.wrapping_mul(6364136223846793005).wrapping_add(1442695040888963407); ((s >> 33) as usize) % n.max(1) };
+    for case in 0..1500 {
+        let n_dgrams = 2 + next(2);
+        let mut reassembly = Reassembly::new();
+        let mut frags: Vec<Vec<(Ipv4Header, Message)>> = Vec::new();
+        let mut originals: Vec<(Ipv4Header, Vec<u8>)> = Vec::new();
+        for d in 0..n_dgrams {
+            let len = (1 + next(3000)) as u16;
+            let bytes: Vec<u8> = (0..len).map(|i| (i as u32 * 13 + d as u32 * 101 + case as u32) as u8).collect();
+            let mut header = TestHeaderBuilder::new(len).ihl().build();
+            header.identification = 1000 + d as u16;
+            let mtu = 68 + next(633) as u16;
+            let fs = match fragment(header, Message::new(bytes.clone()), mtu) {
+                Fragments::Fragmented(fs) => fs,
+                Fragments::DontFragment(f) => vec![f],
+                Fragments::Discard => panic!("discarded"),
+            };
+            frags.push(fs);
+            originals.push((header, bytes));
+        }
+        // arrival order: every fragment at least once, some several times, interleaved across the datagrams
+        let mut arrivals: Vec<(usize, usize)> = Vec::new();
+        for (d, fs) in frags.iter().enumerate() { for k in 0..fs.len() { for _ in 0..(1 + (next(4) == 0) as usize + (next(9) == 0) as usize) { arrivals.push((d, k)); } } }
+        for i in (1..arrivals.len()).rev() { let j = next(i + 1); arrivals.swap(i, j); }
+        let mut seen: Vec<std::collections::BTreeSet<usize>> = vec![Default::default(); n_dgrams];
+        for (step, (d, k)) in arrivals.iter().cloned().enumerate() {
+            let (h, b) = frags[d][k].clone();
+            seen[d].insert(k);
+            let completes = seen[d].len() == frags[d].len();
+            match reassembly.receive_packet(h, b) {
+                ReceivePacketResult::Complete(rh, rm) => {
+                    assert!(completes, "case {case} step {step}: datagram {d} returned although only {} of {} distinct fragments arrived since its last completion", seen[d].len(), frags[d].len());
+                    assert_eq!(rh, originals[d].0, "case {case} step {step}: header of the returned datagram");
+                    assert_eq!(rm.to_vec(), originals[d].1, "case {case} step {step}: payload of the returned datagram (datagram {d}, {} fragments)", frags[d].len());
+                    seen[d].clear();
+                }
+                ReceivePacketResult::Incomplete(..) => {
+                    assert!(!completes, "case {case} step {step}: all {} fragments of datagram {d} have arrived but no datagram was returned", frags[d].len());
+                }
+            }
+        }
+    }
+}
